@@ -28,7 +28,7 @@ def codec_common(ctx, C, gens, drivers=(), mcs=(), traces=("Trace_Codec",)):
 
 
 GEN_CODEC = dict(module="Gen_Codec", name="codec")
-DRV_CODEC = dict(name="randmsg", driver="randmsg", n_quick=300, n_thorough=6000)
+DRV_CODEC = dict(name="randmsg", driver="randmsg", n_quick=300, n_thorough=40000)
 
 ASSUME_CODEC = ["the Go projector (harness/proj.go) maps library values to the spec's D-form faithfully",
                 "TLC evaluates the TLA+ reference codec correctly; the reference codec follows RFC 7296 / 3748 / 4187 / 5448"]
@@ -37,7 +37,7 @@ ASSUME_CODEC = ["the Go projector (harness/proj.go) maps library values to the s
 def gen_obj(kind, prop):
     """Histories of one long-lived object (ObjHist.tla) of the given kind, attributed to the property of the calling check."""
     return dict(module="Gen_ObjHist", name="objhist_" + kind, trace=False, invariants=("Sound", "Emit"),
-                constants=dict(Kind='"%s"' % kind, PropId='"%s"' % prop, MaxOps=lambda ctx: (5 if kind != "ikesa" else 5) if ctx.thorough else 4))
+                constants=dict(Kind='"%s"' % kind, PropId='"%s"' % prop, MaxOps=lambda ctx: (6 if kind != "ikesa" else 5) if ctx.thorough else 4), timeout=3000)
 
 
 MC_OBJ = dict(module="ObjHist", name="objhist_design", constants=dict(NVals=3, MaxOps=6, CleanLoad=True), invariants=("AsFresh",),
@@ -52,7 +52,7 @@ def run_c03(ctx, C):
 
 
 GEN_CURSOR = dict(module="Gen_Cursor", name="cursor", constants=dict(Window=lambda ctx: 12 if ctx.thorough else 2), trace=False, timeout=3000)
-DRV_BYTES = dict(name="randbytes", driver="randbytes", n_quick=4000, n_thorough=100000)
+DRV_BYTES = dict(name="randbytes", driver="randbytes", n_quick=4000, n_thorough=500000)
 
 
 GEN_INSERT = dict(module="Gen_Insert", name="insert", trace=False)
@@ -65,7 +65,7 @@ def run_c05(ctx, C):
 
 
 def run_c12(ctx, C):
-    codec_common(ctx, C, [GEN_CODEC, GEN_LIBERTY, GEN_CURSOR], [DRV_CODEC, dict(DRV_BYTES, n_quick=1500, n_thorough=30000)])
+    codec_common(ctx, C, [GEN_CODEC, GEN_LIBERTY, GEN_CURSOR], [DRV_CODEC, dict(DRV_BYTES, n_quick=1500, n_thorough=150000)])
 
 
 def run_c13(ctx, C):
@@ -131,9 +131,9 @@ def gen_hist(prop, long=False):
     """Behaviours of SKChannel on long-lived SA objects, attributed to the property of the calling check."""
     if long:
         return dict(module="Gen_Histories", name="histories_long", constants=dict(MaxOps=64, Stride=1, PropId='"%s"' % prop), invariants=("Emit",), trace=False,
-                    simulate=lambda ctx: "num=%d" % (3000 if ctx.thorough else 150), workers=16)
+                    simulate=lambda ctx: "num=%d" % (12000 if ctx.thorough else 150), workers=16)
     return dict(module="Gen_Histories", name="histories",
-                constants=dict(MaxOps=lambda ctx: 4 if ctx.thorough else 3, Stride=lambda ctx: 12 if ctx.thorough else 1, PropId='"%s"' % prop),
+                constants=dict(MaxOps=lambda ctx: 4 if ctx.thorough else 3, Stride=lambda ctx: 4 if ctx.thorough else 1, PropId='"%s"' % prop),
                 invariants=("Sound", "Emit"), trace=False, timeout=3000)
 
 
@@ -161,7 +161,7 @@ def run_c07(ctx, C):
     C.stage_race(ctx, dict(module="Gen_Schedules", name="keysets", prop="C07", constants=dict(Focus=KEY_AGREEMENT_KINDS)))
 
 
-GEN_CHILD = dict(module="Gen_Child", name="child", constants=dict(N=lambda ctx: 120 if ctx.thorough else 48), trace=False)
+GEN_CHILD = dict(module="Gen_Child", name="child", constants=dict(N=lambda ctx: 300 if ctx.thorough else 48), trace=False)
 GEN_DH = dict(module="Gen_DH", name="dh", trace=False, replay_workers=16)
 
 
@@ -198,7 +198,7 @@ def run_c11(ctx, C):
 EAP_KINDS = '{"eap", "code", "set", "sender", "receiver", "prf", "unknown"}'
 GEN_EAP = dict(module="Gen_Eap", name="eap", constants=dict(Kinds=EAP_KINDS))
 GEN_EAP_UNKNOWN = dict(module="Gen_Eap", name="eap_unknown", constants=dict(Kinds='{"unknown"}'))
-DRV_EAP = dict(name="randeap", driver="randeap", n_quick=600, n_thorough=20000)
+DRV_EAP = dict(name="randeap", driver="randeap", n_quick=600, n_thorough=100000)
 MC_AKA = dict(module="AkaSession", name="akasession", constants=dict(MacOverWire=True, SameKey=True), invariants=("ReceiverAgrees", "Sensitive"),
               what="EAP-AKA' packet from sender (any attribute order / reserved octets) through an adversary to the receiver")
 MC_AKA2 = dict(module="AkaSession", name="akasession_otherkey", constants=dict(MacOverWire=True, SameKey=False), invariants=("ReceiverAgrees", "Sensitive"),
@@ -235,7 +235,7 @@ def run_c18(ctx, C):
               mc_gor("goroutines_knob_scratch", 2, False, True, "violate")]:
         C.stage_mc(ctx, m)
     C.stage_race(ctx, dict(module="Gen_Schedules", name="sets"))
-    C.stage_cold(ctx, 40 if ctx.thorough else 10)
+    C.stage_cold(ctx, 100 if ctx.thorough else 10)
 
 
 def run_c06(ctx, C):
